@@ -457,7 +457,11 @@ def run_property(prop, tier, seed, verbose=False, write_evidence=True):
         for o in missing:
             run.proof_lost.append(o)
 
+    seen_lines = set()
     for l in lines:
+        if l in seen_lines:
+            continue
+        seen_lines.add(l)
         print(l)
     if errors:
         for e in errors:
